@@ -69,7 +69,8 @@ def run_perf(c, o):
         nx, ny = int(rng.integers(2, 5)), int(rng.integers(2, 8))
         name = "s%d" % s
         surfaces.append(dict(name=name, symmetry=syms[s], mesh=np.zeros((nx, ny, 3))))
-        d = dict(CL=rng.uniform(-0.3, 1.2), CD=rng.uniform(0.005, 0.08), S_ref=10 ** rng.uniform(0, 2.5), structural_mass=10 ** rng.uniform(1, 4.5),
+        # the Breguet exponent R CT CD / (a M CL) must stay in a physical range: positive lift for the aerostructural functionals
+        d = dict(CL=rng.uniform(-0.3, 1.2) if c["aero_only"] else rng.uniform(0.15, 1.2), CD=rng.uniform(0.005, 0.08), S_ref=10 ** rng.uniform(0, 2.5), structural_mass=10 ** rng.uniform(1, 4.5),
                  cg_location=rng.uniform(-3, 3, 3), b_pts=np.cumsum(rng.uniform(0.2, 1.5, (nx - 1, ny, 3)), axis=1) + rng.uniform(-2, 2, 3),
                  widths=rng.uniform(0.3, 2.0, ny - 1), chords=rng.uniform(0.5, 3.0, ny), sec_forces=rng.normal(size=(nx - 1, ny - 1, 3)) * 10 ** rng.uniform(1, 4))
         data.append(d)
